@@ -719,6 +719,8 @@ def run_core_case(case):
         problems.append(f"caller array changed: {sorted(set(probe.mutated))}")
     if probe.second_differs:
         problems.append("second call differs")
+    if probe.layout_differs:
+        problems.append(f"result depends on the memory layout of the caller's arrays: {sorted(set(probe.layout_differs))}")
     return {"outcome": "ok", "problems": problems, "ncalls": None}
 
 
